@@ -61,7 +61,8 @@ func (s *HS) Init(wk *ksim.Worker) *ksim.World {
 	w.Ext = &hsExt{}
 	l := w.SetupClients(0, 1)
 	w.SetupConnection(l, 0)
-	if s.DupTry {
+	{
+		// asymmetric identifiers in every part: an untracked dangling INIT takes channel-0 on chain 1
 		ksim.MustOK("dangling chan init", w.Tx(1, channeltypes.NewMsgChannelOpenInit("mock", ibcmock.Version, channeltypes.UNORDERED, []string{l.ConnB}, "mock", ksim.Signer)))
 	}
 	w.Sync(1, l.ClientB, 0)
@@ -111,8 +112,8 @@ func (s *HS) heights(w *ksim.World, dst int) []int {
 
 var hsOrders = []channeltypes.Order{channeltypes.UNORDERED, channeltypes.ORDERED}
 
-// the empty version is offered only as the counterparty version of an ACK (index 2): it passes ValidateBasic and
-// must be rejected by the proof unless the counterparty end really holds it
+// the empty version (index 2) passes ValidateBasic and must be rejected by the proof unless the counterparty end
+// really holds it
 var hsVersions = []string{ibcmock.Version, "other-version", ""}
 
 func (s *HS) Ops(w *ksim.World) []ksim.Op {
@@ -144,7 +145,7 @@ func (s *HS) Ops(w *ksim.World) []ksim.Op {
 				for _, ph := range s.heights(w, ch) {
 					// honest parameters plus each wrong-but-plausible one: (order idx, version idx) variants
 					for oi := range hsOrders {
-						for vi := range hsVersions[:2] {
+						for vi := range hsVersions {
 							ops = append(ops, ksim.Op{K: "try", A: []int{ch, ti, oi, vi, ph}})
 						}
 					}
